@@ -1,7 +1,7 @@
 import GV.Driver.Loop
 import GV.Driver.C20
 
-def main : IO Unit := GV.Driver.runState GV.Cache.FS.empty fun fs ws =>
+def main : IO Unit := GV.Driver.runState GV.Driver.C20.St.init fun st ws =>
   match ws with
-  | "cache" :: rest => GV.Driver.C20.handle fs rest
-  | _ => (fs, "bad-topic")
+  | "cache" :: rest => GV.Driver.C20.handle st rest
+  | _ => (st, "bad-topic")
